@@ -107,9 +107,25 @@ func spell(l Label) string {
 	return l.Name
 }
 
+// isIdent reports whether s can be (after upper-casing its first letter) a Go
+// field name.
+func isIdent(s string) bool {
+	for i, r := range s {
+		letter := (r >= 'a' && r <= 'z') || (r >= 'A' && r <= 'Z') || r == '_'
+		if !letter && (i == 0 || r < '0' || r > '9') {
+			return false
+		}
+	}
+	return s != ""
+}
+
+// byTag: the label's name is declared through the struct tag (requested, or
+// forced because the name is not an identifier).
+func byTag(l Label) bool { return l.Named() && (l.Tag || !isIdent(spell(l))) }
+
 // fieldName is the exported Go field name used for label i.
 func fieldName(l Label, i int) string {
-	if !l.Named() || l.Tag {
+	if !l.Named() || byTag(l) {
 		return fmt.Sprintf("F%d", i)
 	}
 	s := spell(l)
@@ -118,7 +134,7 @@ func fieldName(l Label, i int) string {
 
 func fieldTag(l Label) reflect.StructTag {
 	name := ""
-	if l.Named() && l.Tag {
+	if byTag(l) {
 		name = spell(l)
 	}
 	var opts []string
